@@ -155,7 +155,19 @@ func (f *Frame) eval(e Expr, c *evalCtx) Val {
 		return Val{T: Ite(cond, a.T, b.T), Go: a.Go}
 	case ELet:
 		v := f.eval(x.V, c)
-		v.T = un.define("let_"+x.Name, v.T)
+		if x.Typ != "" {
+			if v.T.Sort == "nil" {
+				srt, gt := f.specSort(x.Typ)
+				v = Val{T: u.Zero(srt), Go: gt}
+			} else if v.Go == nil {
+				if _, gt := f.specSort(x.Typ); gt != nil {
+					v.Go = gt
+				}
+			}
+		}
+		if v.T.S != "" {
+			v.T = un.define("let_"+x.Name, v.T)
+		}
 		return f.eval(x.B, c.with(x.Name, v))
 	case EQuant:
 		nc := c
@@ -1056,6 +1068,87 @@ func (f *Frame) specParamOrder(d *Contract, args []Val) []Val {
 	var out []Val
 	for _, p := range d.Params {
 		out = append(out, env[p.Name])
+	}
+	return out
+}
+
+// splitGoal breaks a goal expression into independently provable parts: top-level conjunctions, the bodies of
+// (non-opaque) spec predicates, and conjunctions under a universal quantifier (forall x :: G ==> A && B).
+// Hypotheses are never split; only proof goals are.
+func (f *Frame) splitGoal(e Expr, env map[string]Val, depth int) []Expr {
+	if depth > 6 {
+		return []Expr{e}
+	}
+	switch x := e.(type) {
+	case EBinary:
+		if x.Op == "&&" {
+			return append(f.splitGoal(x.L, env, depth+1), f.splitGoal(x.R, env, depth+1)...)
+		}
+		if x.Op == "==>" {
+			var out []Expr
+			for _, p := range f.splitGoal(x.R, env, depth+1) {
+				out = append(out, EBinary{"==>", x.L, p})
+			}
+			return out
+		}
+	case ECall:
+		if d := f.un.eng.specFuns[x.Fn]; d != nil && d.Body != nil && !d.Opaque && d.Sort == "Bool" && len(d.Params) == len(x.Args) {
+			// substitute by let-binding the parameters
+			var out []Expr
+			for _, p := range f.splitGoal(d.Body, env, depth+1) {
+				var w Expr = p
+				for i := len(d.Params) - 1; i >= 0; i-- {
+					w = ELet{Name: d.Params[i].Name, V: x.Args[i], B: w, Typ: d.Params[i].Type}
+				}
+				out = append(out, w)
+			}
+			return out
+		}
+	case EQuant:
+		if x.Forall {
+			var out []Expr
+			for _, p := range f.splitGoal(x.Body, env, depth+1) {
+				out = append(out, EQuant{Forall: true, Vars: x.Vars, Body: p, Pats: x.Pats})
+			}
+			return out
+		}
+	case ELet:
+		var out []Expr
+		for _, p := range f.splitGoal(x.B, env, depth+1) {
+			out = append(out, ELet{Name: x.Name, V: x.V, B: p, Typ: x.Typ})
+		}
+		return out
+	}
+	return []Expr{e}
+}
+
+// evalGoals evaluates the independently provable parts of a clause.
+func (f *Frame) evalGoals(cl *Clause, env map[string]Val, cur, old *State) []Term {
+	parts := f.splitGoal(cl.E, env, 0)
+	if len(parts) <= 1 {
+		return []Term{f.evalClause(cl, env, cur, old)}
+	}
+	var out []Term
+	for _, p := range parts {
+		sub := &Clause{Kind: cl.Kind, Text: cl.Text, E: p, Pos: cl.Pos, Idx: cl.Idx, Tag: cl.Tag}
+		func() {
+			defer func() {
+				if r := recover(); r != nil {
+					if _, ok := r.(unsupported); ok {
+						// a part whose patterns no longer mention its variables etc.: fall back to the whole clause
+						out = nil
+						return
+					}
+					panic(r)
+				}
+			}()
+			if out != nil || len(out) == 0 {
+				out = append(out, f.evalClause(sub, env, cur, old))
+			}
+		}()
+		if out == nil {
+			return []Term{f.evalClause(cl, env, cur, old)}
+		}
 	}
 	return out
 }
